@@ -67,6 +67,9 @@ class C07(Engine):
         # A. fault-free
         for fid in sorted(P.files):
             yield idx, {"kind": "free", "generated": P.meta[fid]["group"] == "gen", "nstmts": P.meta[fid].get("nstmts"),
+                        # I2/I3 speak about the conforming family: generated programs, the hand-written specials and the
+                        # repository's samples - not about pool members made by inserting comments or cutting files
+                        "family": P.meta[fid]["group"] in ("gen", "corpus", "corpus_headed") or P.meta[fid]["group"].startswith("special_"),
                         "count_known": P.meta[fid].get("nstmts") is not None,
                         "ops": [{"op": "api", "file": fid}]}
             idx += 1
@@ -265,7 +268,7 @@ class C07(Engine):
             vs += self.check_I1(o, "fault-free" if not sc.get("fault") else sc["fault"])
             # I2/I3 hold for files the tool itself finds clean, and for generated programs whatever their verdict
             # (they are balanced and one-statement-per-line by construction; validated on 3 000 generated files)
-            if classify(o) == "clean" or (sc.get("generated") and o.get("outcome") == "verdict"):
+            if (classify(o) == "clean" and sc.get("family", True)) or (sc.get("generated") and o.get("outcome") == "verdict"):
                 pops = o["pops"]
                 for k, p in enumerate(pops):
                     before, stop, after, rule, sname, lvl, first, lastt = p
